@@ -11,6 +11,15 @@ operation history (set / reset / summarize / check).  Two streams:
   * "real": real NonnegMean tests on real polling / card-comparison data.
 The model takes the test as a parameter: the request carries, for every `set`, the table of what each assertion's
 test returns on that assertion's data (computed on fresh objects, without set_p_values).
+
+"That assertion's data" is stated by the oracle side independently of the code path set_p_values uses
+(`reference_data`): polling = the assorter values of the manual records; card comparison / ONEAudit = the
+overstatement-assorter values (1 - (reported - seen)/u)/(2 - v/u) of the sampled pairs (under style information: whose
+CVR lists the contest and whose sample number is within the contest's threshold), reported = the pool mean for a pooled
+CVR once the assorter has pool means, else 1/2 for a phantom CVR, else the assorter of the CVR; seen = 0 for a card that
+was not found (phantom manual record) or, under style information, whose manual record lacks the contest, else the
+assorter of the manual record.  One case in four has ONEAudit ingredients: tally pools with pooled cards, pool means
+set (Assorter.set_tally_pool_means), phantom CVRs inside and outside the pooled batches, cards that were not found.
 """
 import contextlib, copy, io, math
 from fractions import Fraction
@@ -24,7 +33,10 @@ RULE = ("1-4 real Contest objects (PLURALITY/APPROVAL/SUPERMAJORITY/IRV x POLLIN
         "risk limits, 0-6 assertions each in a shuffled insertion order, random initial confirmed flags) and an op "
         "history set/reset/summarize/check; stub stream scripts p-values (0, 1, limit, limit+-1ulp, other contest's "
         "limit, NaN, inf, negatives; modes all-pass / one-fail / random) through asn.test, real stream runs real "
-        "NonnegMean tests on polling and comparison samples of growing/shrinking size; malformed stream: parameters "
+        "NonnegMean tests on polling and comparison samples of growing/shrinking size; one case in four with ONEAudit "
+        "ingredients (2-3 tally pools, pooled batches with pool means set, 1-3 phantom CVRs inside / outside the pooled "
+        "batches anywhere in the sample, cards not found); every comparison assertion's data are re-stated from the "
+        "definitions, independently of the code's data path; malformed stream: parameters "
         "check_audit_parameters must reject, unequal sample lengths; non-trivial = at least one set op and at least "
         "two assertions in the audit; distinct = distinct canonical case")
 EXHAUSTIVE = {"quick": False, "thorough": False}
@@ -126,6 +138,13 @@ def build(case):
     for i, (cv, mv) in enumerate(zip(cvrs, mvrs)):
         cv.sample_num = i
         mv.sample_num = i
+    if case.get("pool_means"):
+        # ONEAudit: the reported assorter mean of every pooled batch (after the assertions exist: the Assertion
+        # constructor clears them)
+        for con in contests.values():
+            if con.audit_type == Audit.AUDIT_TYPE.ONEAUDIT:
+                for asn in con.assertions.values():
+                    asn.assorter.set_tally_pool_means(cvr_list=cvrs, use_style=a["use_style"])
     Assertion.set_all_margins_from_cvrs(audit, contests, cvrs)
     for ci, c in enumerate(case["contests"]):
         con = contests[c["id"]]
@@ -165,6 +184,31 @@ def samples(case, op, cvrs, mvrs):
 
 def num(x):
     return fr(x)
+
+
+def reference_data(asn, con, mv, cv):
+    """(d, u): the data of a card-comparison / ONEAudit assertion on the sample, from the definitions (module
+    docstring); uses the raw assorter, its bound, the stored margin and pool means and the records' flags -- not
+    Assertion.mvrs_to_data, Assertion.overstatement_assorter or Assorter.overstatement.  None if it cannot be stated"""
+    try:
+        A, ub, v = asn.assorter.assort, asn.assorter.upper_bound, asn.margin
+        means = asn.assorter.tally_pool_means
+        cid, style = con.id, con.use_style
+        out = []
+        for m, c in zip(mv, cv):
+            if style and not (cid in c.votes and c.sample_num <= con.sample_threshold):
+                continue
+            if c.pool and means is not None:
+                reported = means[c.tally_pool]
+            elif c.phantom:
+                reported = 1 / 2
+            else:
+                reported = A(c)
+            seen = 0 if (m.phantom or (style and cid not in m.votes)) else A(m)
+            out.append((1 - (reported - seen) / ub) / (2 - v / ub))
+        return np.array(out, dtype=float), 2 / (2 - v / ub)
+    except Exception:  # noqa
+        return None
 
 
 def snapshot(contests):
@@ -215,13 +259,30 @@ def impl(case):
                 retest, called_ok = [], True
                 for con in contests.values():
                     row = []
-                    for asn in con.assertions.values():
+                    for asn_name, asn in con.assertions.items():
                         d, u = asn.mvrs_to_data(mv, cv)
                         if con.audit_type == Audit.AUDIT_TYPE.POLLING:
                             # a polling assertion's data are the assorter values of the manual records, whether or
                             # not CVRs were handed in as well (computed here without mvrs_to_data)
                             d = np.array([asn.assorter.assort(m) for m in mv], dtype=float)
                             u = asn.assorter.upper_bound
+                        elif cv is not None:
+                            # comparison data stated from the definitions; rounding apart, they are what the code's own
+                            # data path yields -- if not, the test is re-run on the stated data
+                            ref = reference_data(asn, con, mv, cv)
+                            if ref is not None:
+                                dl = np.array(d, dtype=float)
+                                same = (len(ref[0]) == len(dl)
+                                        and np.allclose(ref[0], dl, rtol=1e-12, atol=1e-12, equal_nan=True)
+                                        and np.isclose(ref[1], u, rtol=1e-12, atol=0))
+                                if not same:
+                                    if "data_note" not in step:
+                                        step["data_note"] = (
+                                            f"contest {con.id} ({con.audit_type}) assertion {asn_name}: the data of the "
+                                            f"sampled pairs are {[float(x) for x in ref[0]]} with u={float(ref[1])} "
+                                            f"(cards {[c.id for c in cv]}, pool means {asn.assorter.tally_pool_means}), "
+                                            f"the code's data path gives {[float(x) for x in dl]} with u={float(u)}")
+                                    d, u = ref
                         if isinstance(asn.test, StubTest):
                             calls = asn.test.calls
                             if not (len(calls) == 1 and len(calls[0][0]) == len(d)
@@ -428,7 +489,8 @@ def oracle_c09(case, ir):
             if case["ops"][i]["cvr"] == "short":
                 return {"what": f"{w}: unequal numbers of cvrs and mvrs accepted"}
             if not s["called_on_data"]:
-                return {"what": f"{w}: a test was not called exactly once on its assertion's data with its upper bound"}
+                return {"what": f"{w}: a test was not called exactly once on its assertion's data with its upper bound"
+                                + (": " + s["data_note"] if s.get("data_note") else "")}
             cmaxes = []
             for ci, (c, pc) in enumerate(zip(st, prev)):
                 L = lim[c["id"]]
@@ -437,7 +499,8 @@ def oracle_c09(case, ir):
                     rp, rh = s["retest"][ci][ai]
                     if a["p_value"] != rp or a["p_history"] != rh:
                         return {"what": f"{w}: contest {c['id']} assertion {a['name']}: recorded (p, history)="
-                                        f"({a['p_value']}, {a['p_history'][:5]}..) but its test returns ({rp}, {rh[:5]}..)"}
+                                        f"({a['p_value']}, {a['p_history'][:5]}..) but its test returns ({rp}, {rh[:5]}..)"
+                                        + (" on the assertion's data: " + s["data_note"] if s.get("data_note") else "")}
                     p = _f(a["p_value"])
                     ps.append(p)
                     want = (p <= L) or pa["proved"]
@@ -608,8 +671,13 @@ def gen_votes(rng, c, truthful=True):
     return v
 
 
-def gen_cards(rng, contests, ncards, err):
+def gen_cards(rng, contests, ncards, err, oneaudit=False):
+    """`oneaudit`: two or three tally pools of which one or two are pooled batches, 1-3 phantom CVRs (usually inside a
+    pooled batch, as CVR.make_phantoms(..., tally_pool=, pool=True) makes them) anywhere in the list, cards that
+    are not found (phantom manual records)"""
     cvrs, mvrs = [], []
+    pools = ["1", "2", "3"][: rng.choice([2, 2, 3])] if oneaudit else ["1"]
+    pooled = set(rng.sample(pools, rng.randint(1, len(pools) - 1))) if oneaudit else set()
     for i in range(ncards):
         votes = {}
         for c in contests:
@@ -622,8 +690,29 @@ def gen_cards(rng, contests, ncards, err):
                     del mv[c["id"]]
                 else:
                     mv[c["id"]] = gen_votes(rng, c)
-        cvrs.append({"id": f"card{i}", "tally_pool": "1", "votes": votes})
-        mvrs.append({"id": f"card{i}", "tally_pool": "1", "votes": mv})
+        tp = rng.choice(pools)
+        cv = {"id": f"card{i}", "tally_pool": tp, "votes": votes}
+        mvd = {"id": f"card{i}", "tally_pool": tp, "votes": mv}
+        if oneaudit:
+            cv["pool"] = tp in pooled
+            if rng.chance(0.08):
+                mvd = {"id": f"card{i}", "tally_pool": tp, "votes": {}, "phantom": True}       # the card was not found
+        cvrs.append(cv)
+        mvrs.append(mvd)
+    if oneaudit:
+        for j in range(rng.randint(1, 3)):
+            listed = [c["id"] for c in contests if rng.chance(0.85)] or [contests[0]["id"]]
+            in_pool = rng.chance(0.8)
+            tp = rng.choice(sorted(pooled)) if in_pool else rng.choice(pools)
+            cv = {"id": f"phantom-{j + 1}", "tally_pool": tp, "pool": in_pool, "phantom": True,
+                  "votes": {cid: {} for cid in listed}}
+            if rng.chance(0.85):
+                mvd = {"id": cv["id"], "tally_pool": tp, "votes": {}, "phantom": True}
+            else:       # found after all
+                mvd = {"id": cv["id"], "tally_pool": tp, "votes": {c["id"]: gen_votes(rng, c) for c in contests if c["id"] in listed}}
+            pos = rng.randint(0, len(cvrs))
+            cvrs.insert(pos, cv)
+            mvrs.insert(pos, mvd)
     return cvrs, mvrs
 
 
@@ -763,11 +852,15 @@ def gen_stub_case(rng):
     if rng.chance(0.15) and nc > 1:
         contests[1]["risk_limit"] = contests[0]["risk_limit"]      # equal limits occur too
     ncards = rng.randint(4, 10)
-    cvrs, mvrs = gen_cards(rng, contests, ncards, 0.15)
+    oneaudit = rng.chance(0.25)
+    if oneaudit and not any(c["audit_type"] == "ONEAUDIT" for c in contests):
+        rng.choice(contests)["audit_type"] = "ONEAUDIT"
+    cvrs, mvrs = gen_cards(rng, contests, ncards, 0.15, oneaudit=oneaudit)
+    ncards = len(cvrs)
     all_polling = all(c["audit_type"] == "POLLING" for c in contests)
     for c in contests:
         c["sample_threshold"] = rng.choice([ncards, ncards, max(0, ncards - 3)])
-    case = {"stream": "stub", "ret_kind": rng.choice(["np", "np", "float"]),
+    case = {"stream": "stub", "ret_kind": rng.choice(["np", "np", "float"]), "pool_means": oneaudit,
             "audit": {"error_rate_1": rng.choice(["1/1000", "0", "1/100"]), "error_rate_2": rng.choice(["0", "1/10000"]),
                       "use_style": rng.chance(0.6)},
             "contests": contests, "cvrs": cvrs, "mvrs": mvrs,
@@ -796,7 +889,15 @@ def gen_real_case(rng):
     used = []
     contests = [gen_contest(rng, i, "real", used) for i in range(nc)]
     ncards = rng.randint(12, 60)
-    cvrs, mvrs = gen_cards(rng, contests, ncards, rng.choice([0.0, 0.02, 0.1]))
+    oneaudit = rng.chance(0.25)
+    if oneaudit:
+        for c in contests:
+            if c["audit_type"] == "CARD_COMPARISON" and rng.chance(0.7):
+                c["audit_type"] = "ONEAUDIT"
+        if not any(c["audit_type"] == "ONEAUDIT" for c in contests):
+            rng.choice(contests)["audit_type"] = "ONEAUDIT"
+    cvrs, mvrs = gen_cards(rng, contests, ncards, rng.choice([0.0, 0.02, 0.1]), oneaudit=oneaudit)
+    ncards = len(cvrs)
     for c in contests:
         t = rng.choice(REAL_TESTS)
         if t["estim"] == "optimal_comparison" and c["audit_type"] == "POLLING":
@@ -815,7 +916,7 @@ def gen_real_case(rng):
         ops.append({"op": "set", "n": n, "cvr": cvr})
         n = rng.choice([n, min(ncards, n + rng.randint(1, 25)), ncards, max(1, n - rng.randint(0, 5))])
     return {"stream": "real", "audit": {"error_rate_1": "1/1000", "error_rate_2": "0", "use_style": rng.chance(0.6)},
-            "contests": contests, "cvrs": cvrs, "mvrs": mvrs, "ops": ops}
+            "pool_means": oneaudit, "contests": contests, "cvrs": cvrs, "mvrs": mvrs, "ops": ops}
 
 
 def usable(case):
